@@ -570,8 +570,12 @@ func (a *aggregate) write(wall float64, violations int) {
 		"violations":  violations,
 	}
 	b, _ := json.MarshalIndent(ev, "", " ")
-	os.MkdirAll("/verif/evidence", 0o755)
-	os.WriteFile(fmt.Sprintf("/verif/evidence/%s.json", a.ID), append(b, '\n'), 0o644)
+	edir := "/verif/evidence"
+	if d := os.Getenv("PBSIM_EVIDENCE_DIR"); d != "" { // self-tests on deliberately broken trees keep their evidence elsewhere
+		edir = d
+	}
+	os.MkdirAll(edir, 0o755)
+	os.WriteFile(fmt.Sprintf("%s/%s.json", edir, a.ID), append(b, '\n'), 0o644)
 }
 
 func max64(a, b int64) int64 {
